@@ -1,3 +1,278 @@
-import Rtcp.Lemmas.Safe6
+/-
+  C14 — REMB bitrate coding is exact, monotone and saturating.
+  A float32 is its bit pattern; `f32Floor bits` is ⌊value⌋ for a finite non-negative pattern, and the theorems
+  also show when the value is an integer (so the floor *is* the value). The float32 operations of the Go code
+  (halve, Floor, compare with 2^18 and 0x3FFFF·2^63, assemble bits) are exact on the reachable range and are
+  modelled on ℕ; that modelling step is tied by the correspondence on REMB wire pairs and dense float inputs.
+  Known finding KF-REMB-MANT0: the 64 wire pairs with mantissa 0 decode to 2^(e+23) (pinned by a test vector).
+-/
+import Rtcp.Model.Remb
+import Rtcp.Lemmas.Bytes
 namespace Rtcp.C14
+open Rtcp Gen Out
+set_option linter.unusedSimpArgs false
+set_option linter.unusedVariables false
+
+/-! ### decoding: exact for all 64 × (2^18 − 1) pairs with a non-zero mantissa -/
+
+/-- invariant of the normalisation loop: `mant = m0·2^s`, `exp + s = exp0`, until bit 23 is set -/
+theorem normLoop_spec (gas exp0 m0 : Nat) (s exp m : Nat) (hm0 : 0 < m0) (hm : m = m0 * 2 ^ s) (hlt : m < 16777216)
+    (he : exp + s = exp0) (hexp0 : 150 ≤ exp0 ∧ exp0 < 256) (hg : 16777216 ≤ m * 2 ^ gas) :
+    ∃ s' exp' m', rembNormLoop gas exp m = .ok (exp', m') ∧ m' = m0 * 2 ^ s' ∧ exp' + s' = exp0 ∧
+      8388608 ≤ m' ∧ m' < 16777216 := by
+  induction gas generalizing s exp m with
+  | zero => simp at hg; omega
+  | succ g ih =>
+    unfold rembNormLoop
+    by_cases hb : m / 8388608 % 2 = 0
+    · rw [if_pos hb]
+      have hm2 : m < 8388608 := by omega
+      have h2 : (m * 2) % 4294967296 = m * 2 := by omega
+      have hs : s < 24 := by
+        apply Nat.lt_of_not_le; intro h24
+        have h1 : 2 ^ 24 ≤ 2 ^ s := Nat.pow_le_pow_right (by decide) h24
+        have h3 : m0 * 2 ^ 24 ≤ m0 * 2 ^ s := Nat.mul_le_mul_left _ h1
+        have h224 : (2 : Nat) ^ 24 = 16777216 := by decide
+        rw [h224] at h3
+        omega
+      have hdec : (exp + 255) % 256 = exp - 1 := by omega
+      rw [h2, hdec]
+      apply ih (s + 1) (exp - 1) (m * 2)
+      · rw [hm, Nat.pow_succ, Nat.mul_assoc]
+      · omega
+      · omega
+      · rw [Nat.pow_succ, Nat.mul_comm (2 ^ g) 2, ← Nat.mul_assoc] at hg; exact hg
+    · rw [if_neg hb]
+      exact ⟨s, exp, m, rfl, hm, he, by omega, hlt⟩
+
+/-- the decoded pattern, for a non-zero mantissa: exponent field `e + 150 − s`, fraction `m·2^s − 2^23` -/
+theorem decBits_spec (e m : Nat) (he : e < 64) (hm : 0 < m) (hm18 : m < 262144) :
+    ∃ s bits, rembDecBits e m = .ok bits ∧ s ≤ 23 ∧ 8388608 ≤ m * 2 ^ s ∧ m * 2 ^ s < 16777216 ∧
+      f32Exp bits = e + 150 - s ∧ f32Frac bits = m * 2 ^ s - 8388608 ∧ f32Sign bits = 0 := by
+  have hexp0 : (e + 127 + 23) % 256 = e + 150 := by omega
+  have h40 : (2 : Nat) ^ 40 = 1099511627776 := by decide
+  obtain ⟨s, exp', m', hl, hm', hes, hlo, hhi⟩ :=
+    normLoop_spec 40 (e + 150) m 0 (e + 150) m hm (by simp) (by omega) (by omega) (by omega) (by rw [h40]; omega)
+  have hs : s ≤ 23 := by
+    apply Nat.le_of_not_lt; intro h24
+    have h1 : 2 ^ 24 ≤ 2 ^ s := Nat.pow_le_pow_right (by decide) h24
+    have h3 : m * 2 ^ 24 ≤ m * 2 ^ s := Nat.mul_le_mul_left _ h1
+    have h224 : (2 : Nat) ^ 24 = 16777216 := by decide
+    rw [h224] at h3; omega
+  refine ⟨s, (exp' * 8388608) % 4294967296 + m' % 8388608, ?_, hs, by omega, by omega, ?_, ?_, ?_⟩
+  · unfold rembDecBits
+    dsimp only
+    rw [hexp0, if_pos (by omega), hl]
+    rfl
+  · unfold f32Exp; omega
+  · unfold f32Frac; omega
+  · unfold f32Sign; omega
+
+/-- **decoding is exact**: the decoded float is the integer `mantissa × 2^exponent` (its floor is that number and
+nothing is cut off), for every exponent 0..63 and every mantissa 1..2^18−1 -/
+theorem dec_exact (e m : Nat) (he : e < 64) (hm : 0 < m) (hm18 : m < 262144) :
+    ∃ bits, rembDecBits e m = .ok bits ∧ f32Floor bits = m * 2 ^ e ∧ f32IsNaN bits = false ∧ f32IsInf bits = false ∧
+      f32Neg bits = false := by
+  obtain ⟨s, bits, hb, hs, hlo, hhi, hE, hF, hS⟩ := decBits_spec e m he hm hm18
+  refine ⟨bits, hb, ?_, ?_, ?_, ?_⟩
+  · unfold f32Floor
+    dsimp only
+    rw [hE, hF]
+    have hsum : 8388608 + (m * 2 ^ s - 8388608) = m * 2 ^ s := by omega
+    rw [if_neg (by omega), hsum]
+    by_cases hc : e + 150 - s ≥ 150
+    · rw [if_pos hc]
+      have h1 : e + 150 - s - 150 = e - s := by omega
+      have h2 : s + (e - s) = e := by omega
+      rw [h1, Nat.mul_assoc, (Nat.pow_add 2 s (e - s)).symm, h2]
+    · rw [if_neg hc]
+      have h1 : 150 - (e + 150 - s) = s - e := by omega
+      rw [h1]
+      obtain ⟨d, hd⟩ : ∃ d, s = e + d := ⟨s - e, by omega⟩
+      subst hd
+      rw [Nat.add_sub_cancel_left, Nat.pow_add, ← Nat.mul_assoc]
+      exact Nat.mul_div_cancel _ (Nat.pow_pos (by decide : 0 < 2))
+  · simp [f32IsNaN, hE]; omega
+  · simp [f32IsInf, hE]; omega
+  · simp [f32Neg, hS]
+
+/-- the known deviation, stated so that it stays visible: mantissa 0 decodes to `2^(e+23)`, not 0 -/
+theorem KF_mantissa_zero : ∃ bits, rembDecBits 5 0 = .ok bits ∧ f32Floor bits = 2 ^ 28 := ⟨_, rfl, by decide⟩
+
+/-! ### encoding: largest representable value not above the bitrate, minimal exponent, saturating -/
+
+theorem encLoop_spec (gas v e : Nat) (hg : v < 262144 * 2 ^ gas) :
+    ∃ k, rembEncLoop (gas + 1) v e = .ok (v / 2 ^ k, e + k) ∧ v / 2 ^ k < 262144 ∧ (k = 0 ∨ 131072 ≤ v / 2 ^ k) := by
+  induction gas generalizing v e with
+  | zero =>
+    simp at hg
+    exact ⟨0, by simp [rembEncLoop]; omega, by simp; omega, Or.inl rfl⟩
+  | succ g ih =>
+    rw [rembEncLoop]
+    by_cases h : v ≥ 262144
+    · rw [if_pos h]
+      obtain ⟨k, hk, hlt, hmin⟩ := ih (v / 2) (e + 1) (by rw [Nat.pow_succ] at hg; omega)
+      refine ⟨k + 1, ?_, ?_, ?_⟩
+      · rw [hk, Nat.pow_succ, Nat.mul_comm, ← Nat.div_div_eq_div_mul]
+        congr 2; omega
+      · rw [Nat.pow_succ, Nat.mul_comm, ← Nat.div_div_eq_div_mul]; exact hlt
+      · right
+        rw [Nat.pow_succ, Nat.mul_comm, ← Nat.div_div_eq_div_mul]
+        rcases hmin with h0 | h1
+        · subst h0; simp at hlt ⊢; omega
+        · exact h1
+    · rw [if_neg h]
+      exact ⟨0, by simp, by simp; omega, Or.inl rfl⟩
+
+/-- ⌊bitrate⌋ after the saturation clamp -/
+def clampFloor (bits : Nat) : Nat :=
+  if f32IsInf bits then rembBitrateMax else min (f32Floor bits) rembBitrateMax
+
+/-- **encoding**: for every non-negative, non-NaN float32 the mantissa has 18 bits, the exponent is at most 63 and
+minimal, and `mantissa·2^exp` is the largest such value not exceeding the (clamped) bitrate: it falls short by less
+than one unit in the last place of the mantissa. -/
+theorem enc_floor (bits : Nat) (hpos : f32Sign bits = 0) :
+    ∃ m e, rembEncBitrate bits = .ok (m, e) ∧ m < 262144 ∧ e ≤ 63 ∧ (e = 0 ∨ 131072 ≤ m) ∧
+      m * 2 ^ e ≤ clampFloor bits ∧ clampFloor bits < (m + 1) * 2 ^ e := by
+  have hneg : f32Neg bits = false := by simp [f32Neg, hpos]
+  have hmax : rembBitrateMax = 262143 * 2 ^ 63 := by decide
+  have hvle : clampFloor bits ≤ rembBitrateMax := by
+    unfold clampFloor; split
+    · exact Nat.le_refl _
+    · exact Nat.min_le_right _ _
+  have hv : (if (if f32IsInf bits ∧ f32Sign bits = 0 then rembBitrateMax else f32Floor bits) ≥ rembBitrateMax ∧ f32Sign bits = 0
+      then rembBitrateMax else (if f32IsInf bits ∧ f32Sign bits = 0 then rembBitrateMax else f32Floor bits)) = clampFloor bits := by
+    unfold clampFloor
+    by_cases hi : f32IsInf bits = true
+    · simp [hi, hpos]
+    · simp [hi, hpos]
+      by_cases hge : rembBitrateMax ≤ f32Floor bits
+      · simp [hge, Nat.min_eq_right hge]
+      · simp [hge]; omega
+  obtain ⟨k, hk, hlt, hmin⟩ := encLoop_spec 199 (clampFloor bits) 0 (by
+    have h200 : (262143 : Nat) * 2 ^ 63 < 262144 * 2 ^ 199 := by decide
+    rw [hmax] at hvle; omega)
+  have hk63 : k ≤ 63 := by
+    apply Nat.le_of_not_lt; intro h64
+    have h1 : 2 ^ 64 ≤ 2 ^ k := Nat.pow_le_pow_right (by decide) h64
+    have h2 : clampFloor bits < 2 ^ 64 * 131072 := by
+      have : (262143 : Nat) * 2 ^ 63 < 2 ^ 64 * 131072 := by decide
+      rw [hmax] at hvle; omega
+    have h3 : clampFloor bits / 2 ^ k < 131072 := by
+      apply (Nat.div_lt_iff_lt_mul (Nat.pow_pos (by decide))).mpr
+      calc clampFloor bits < 2 ^ 64 * 131072 := h2
+        _ ≤ 2 ^ k * 131072 := Nat.mul_le_mul_right _ h1
+        _ = 131072 * 2 ^ k := Nat.mul_comm _ _
+    rcases hmin with h0 | h1'
+    · omega
+    · omega
+  refine ⟨clampFloor bits / 2 ^ k, k, ?_, hlt, hk63, hmin, ?_, ?_⟩
+  · unfold rembEncBitrate
+    dsimp only
+    rw [hneg, if_neg (by simp), hv, hpos, if_neg (by decide), hk]
+    simp only [bind_ok, Nat.zero_add]
+    rw [if_neg (by omega)]
+    rfl
+  · exact Nat.div_mul_le_self _ _
+  · have := Nat.lt_div_mul_add (a := clampFloor bits) (b := 2 ^ k) (Nat.pow_pos (by decide))
+    rw [Nat.add_mul, Nat.one_mul]; exact this
+
+/-- **saturation**: everything at or above 0x3FFFF·2^63 (including +∞) is sent as 0x3FFFF·2^63 -/
+theorem saturates (bits : Nat) (hpos : f32Sign bits = 0) (hbig : clampFloor bits = rembBitrateMax) :
+    rembEncBitrate bits = .ok (262143, 63) := by
+  obtain ⟨m, e, he, hm, he63, hmin, hlo, hhi⟩ := enc_floor bits hpos
+  rw [he]
+  have hmax : rembBitrateMax = 262143 * 2 ^ 63 := by decide
+  rw [hbig, hmax] at hlo hhi
+  -- m·2^e ≤ 262143·2^63 < (m+1)·2^e with m < 2^18, e ≤ 63 forces e = 63, m = 262143
+  have he' : e = 63 := by
+    apply Nat.le_antisymm he63
+    apply Nat.le_of_not_lt; intro hlt
+    have h1 : 2 ^ e ≤ 2 ^ 62 := Nat.pow_le_pow_right (by decide) (by omega)
+    have h2 : (m + 1) * 2 ^ e ≤ 262144 * 2 ^ 62 := Nat.mul_le_mul (by omega) h1
+    have h3 : (262144 : Nat) * 2 ^ 62 ≤ 262143 * 2 ^ 63 := by decide
+    omega
+  subst he'
+  have hm' : m = 262143 := by
+    have h63 : (0 : Nat) < 2 ^ 63 := Nat.pow_pos (by decide)
+    have a : m ≤ 262143 := by omega
+    have b : 262143 < m + 1 := Nat.lt_of_mul_lt_mul_right hhi
+    omega
+  rw [hm']
+
+/-- **negative bitrates are rejected** (−0 is not negative) -/
+theorem negative_rejected (bits : Nat) (h : f32Neg bits = true) : rembEncBitrate bits = .err := by
+  unfold rembEncBitrate; dsimp only; rw [h]; rfl
+
+theorem negative_packet_rejected (p : Remb) (h : f32Neg p.bitrate = true) (hs : p.ssrcs.length ≤ 255) : p.enc = .err := by
+  unfold Remb.enc
+  rw [if_neg (by omega), negative_rejected _ h]; rfl
+
+/-- **monotone**: the value sent never decreases when the bitrate increases -/
+theorem monotone_values (x y : Nat) (hxy : x ≤ y) (mx ex my ey : Nat)
+    (hx : mx * 2 ^ ex ≤ x ∧ x < (mx + 1) * 2 ^ ex) (hy : my * 2 ^ ey ≤ y ∧ y < (my + 1) * 2 ^ ey)
+    (hminx : ex = 0 ∨ 131072 ≤ mx) (hminy : ey = 0 ∨ 131072 ≤ my) (hmx : mx < 262144) (hmy : my < 262144) :
+    mx * 2 ^ ex ≤ my * 2 ^ ey := by
+  by_cases hle : ex ≤ ey
+  · obtain ⟨d, hd⟩ : ∃ d, ey = ex + d := ⟨ey - ex, by omega⟩
+    subst hd
+    have hpow : 2 ^ (ex + d) = 2 ^ d * 2 ^ ex := by rw [Nat.pow_add, Nat.mul_comm]
+    rw [hpow, ← Nat.mul_assoc] at hy ⊢
+    have hpos : 0 < 2 ^ ex := Nat.pow_pos (by decide)
+    apply Nat.mul_le_mul_right
+    cases d with
+    | zero =>
+      simp at hy ⊢
+      have h1 : mx * 2 ^ ex < (my + 1) * 2 ^ ex := by omega
+      have := Nat.lt_of_mul_lt_mul_right h1
+      omega
+    | succ d =>
+      have hmy : 131072 ≤ my := by rcases hminy with h | h <;> omega
+      have h2 : 2 ≤ 2 ^ (d + 1) := by
+        have : 2 ^ 1 ≤ 2 ^ (d + 1) := Nat.pow_le_pow_right (by decide) (by omega)
+        simpa using this
+      have : 131072 * 2 ≤ my * 2 ^ (d + 1) := Nat.mul_le_mul hmy h2
+      omega
+  · exfalso
+    have hlt : ey < ex := by omega
+    have hmx2 : 131072 ≤ mx := by rcases hminx with h | h <;> omega
+    have h1 : 2 ^ (ey + 1) ≤ 2 ^ ex := Nat.pow_le_pow_right (by decide) (by omega)
+    have h2 : (my + 1) * 2 ^ ey ≤ 262144 * 2 ^ ey := Nat.mul_le_mul_right _ (by omega)
+    have h3 : 262144 * 2 ^ ey = 131072 * 2 ^ (ey + 1) := by rw [Nat.pow_succ]; omega
+    have h4 : 131072 * 2 ^ (ey + 1) ≤ mx * 2 ^ ex := Nat.mul_le_mul hmx2 h1
+    omega
+
+/-- corollary for the encoder: `x ≤ y` (as clamped floors) ⇒ value sent for x ≤ value sent for y -/
+theorem enc_monotone (bx by_ : Nat) (hx : f32Sign bx = 0) (hy : f32Sign by_ = 0) (hxy : clampFloor bx ≤ clampFloor by_) :
+    ∃ mx ex my ey, rembEncBitrate bx = .ok (mx, ex) ∧ rembEncBitrate by_ = .ok (my, ey) ∧ mx * 2 ^ ex ≤ my * 2 ^ ey := by
+  obtain ⟨mx, ex, h1, h2, h3, h4, h5, h6⟩ := enc_floor bx hx
+  obtain ⟨my, ey, g1, g2, g3, g4, g5, g6⟩ := enc_floor by_ hy
+  exact ⟨mx, ex, my, ey, h1, g1, monotone_values _ _ hxy mx ex my ey ⟨h5, h6⟩ ⟨g5, g6⟩ h4 g4 h2 g2⟩
+
+/-- **decode(encode(x)) ≤ x with equality when x is representable**: if the clamped value is `m·2^e` with an
+18-bit mantissa in normal form, the encoder returns exactly `(m, e)` -/
+theorem enc_exact_on_representable (bits m e : Nat) (hpos : f32Sign bits = 0) (hm : m < 262144) (he : e ≤ 63)
+    (hnorm : e = 0 ∨ 131072 ≤ m) (hval : clampFloor bits = m * 2 ^ e) :
+    ∃ m' e', rembEncBitrate bits = .ok (m', e') ∧ m' * 2 ^ e' = m * 2 ^ e := by
+  obtain ⟨m', e', h1, h2, h3, h4, h5, h6⟩ := enc_floor bits hpos
+  refine ⟨m', e', h1, ?_⟩
+  rw [hval] at h5 h6
+  have a := monotone_values (m * 2 ^ e) (m * 2 ^ e) (Nat.le_refl _) m e m' e' ⟨Nat.le_refl _, by rw [Nat.add_mul]; have := Nat.pow_pos (a := 2) (n := e) (by decide); omega⟩ ⟨h5, h6⟩ hnorm h4 hm h2
+  omega
+
+/-- the SSRC count octet equals the number of SSRC entries (at most 255 are accepted) -/
+theorem count_octet (p : Remb) (b : Bytes) (h : p.enc = .ok b) : p.ssrcs.length ≤ 255 ∧ get8 b 16 = p.ssrcs.length := by
+  unfold Remb.enc at h
+  split at h
+  · cases h
+  · rename_i hl
+    obtain ⟨⟨m, e⟩, _, h⟩ := bind_eq_ok.mp h
+    simp at h
+    refine ⟨by omega, ?_⟩
+    rw [← h]
+    simp [get8, be16, be32, byte]
+    omega
+
+example : rembEncBitrate 0x4b083800 = .ok (139488, 6) := by decide   -- 8927232 = 139488·2^6
+
 end Rtcp.C14
